@@ -46,7 +46,7 @@ def gates(tier):
         "min_decided": {a: 150 * k for a in APIS[:4]} | {"cfg.materialize(n)": 20 * k},
         "shapes": {c: 3 * k for c in ["eps_rule", "nullable_cycle", "unary_cycle", "left_recursive", "duplicate_rule",
                                       "start_on_rhs", "finitely_ambiguous", "sr:Poly", "sr:Q", "sr:Boolean", "sr:MaxPlus",
-                                      "sr:Log", "sr:Real", "sr:MaxTimes"]},
+                                      "sr:Log", "sr:Real", "sr:MaxTimes", "long-member-strings"]},
         # no gate on tie events: on the repaired tree agenda priorities are injective (0 ties observed);
         # the tie-break policies only matter once a change makes priorities collide
         "min_events": {"heap.pop": 1000},
@@ -104,6 +104,11 @@ def run_case(case, ctx):
         return
     exact = bool(getattr(O.alg, "exact", False)) and "nullable_cycle" not in cls
     strings = list(GG.strings_upto(g["V"], case["maxlen"]))
+    # plus a few longer members obtained by random derivation (independent of the library)
+    longs = [x for x in GG.sample_members(g0, random.Random(case.get("perm") or 7), k=4) if x not in set(strings)]
+    if longs:
+        ctx.shape["long-member-strings"] += len(longs)
+    strings = strings + longs
     want = {}
     try:
         for x in strings:
@@ -168,7 +173,7 @@ def run_case(case, ctx):
         ok, tab = ctx.call(api, c2, cfg.materialize, n)
         if not ok:
             continue
-        exp = {x for x in members if len(x) <= n}
+        exp = {x for x in members if len(x) <= n}  # (long sampled strings are longer than n)
         got = {tuple(k) for k, v in tab.items() if not lib.is_zero_value(R, v)}
         bad_keys = [k for k in tab if len(k) > n]
         good = got == exp and not bad_keys and all(
